@@ -351,13 +351,15 @@ static void Array_Push_At(var self, var obj, var key) {
   
   a->nitems++;
   Array_Reserve_More(a);
+  a->nitems--;
   
-  memmove((char*)a->data + Array_Step(a) * (i+1),
-          (char*)a->data + Array_Step(a) * (i+0), 
-          Array_Step(a) * ((a->nitems-1) - i));
+  Array_Alloc(a, a->nitems);
+  assign(Array_Item(a, a->nitems), obj);
+  a->nitems++;
   
-  Array_Alloc(self, i);
-  assign(Array_Item(a, i), obj);
+  for (size_t j = a->nitems-1; j > (size_t)i; j--) {
+    swap(Array_Item(a, j), Array_Item(a, j-1));
+  }
 }
 
 static void Array_Pop(var self) {
